@@ -197,10 +197,10 @@ def _ellipsoid(case, rec):
 def clauses():
     fl = {"cx!=cy": 0.5, "tie": 0.15}
     return [
-        Clause("circle", _case(1, False), _circle, quick=600, thorough=15000, rule="Circle", floors={"cx!=cy": 0.5}),
-        Clause("ellipse", _case(2, False), _ellipse, quick=800, thorough=20000, rule="Ellipse", floors=dict(fl, unsorted_axes=0.2)),
-        Clause("sphere", _case(1, True), _sphere, quick=600, thorough=15000, rule="Sphere", floors={"cx!=cy": 0.5}),
-        Clause("ellipsoid", _case(3, True), _ellipsoid, quick=800, thorough=20000, rule="Ellipsoid", floors=dict(fl, unsorted_axes=0.3)),
+        Clause("circle", _case(1, False), _circle, quick=4800, thorough=15000, rule="Circle", floors={"cx!=cy": 0.5}),
+        Clause("ellipse", _case(2, False), _ellipse, quick=6400, thorough=20000, rule="Ellipse", floors=dict(fl, unsorted_axes=0.2)),
+        Clause("sphere", _case(1, True), _sphere, quick=4800, thorough=15000, rule="Sphere", floors={"cx!=cy": 0.5}),
+        Clause("ellipsoid", _case(3, True), _ellipsoid, quick=6400, thorough=20000, rule="Ellipsoid", floors=dict(fl, unsorted_axes=0.3)),
     ]
 
 
